@@ -34,7 +34,10 @@ namespace c11
         BEFORE = 1
     };
     static const size_t PG = 4096;
-    static const int W = 384;
+    static const size_t NPAGES = 20; // read/write pages per arena (large arrays: 1000 x 32 bytes)
+    static const int W_SMALL = 384;
+    inline int W = W_SMALL;          // bytes next to each guard that are reset before / inspected after a call
+    inline int (*rand_hook)() = nullptr; // when set, igc_rand() returns its value instead of being a choice point
     struct Arena
     {
         uint8_t *lo = nullptr, *hi = nullptr;
@@ -43,16 +46,17 @@ namespace c11
         {
             if (lo)
                 return;
-            uint8_t *m = (uint8_t *)mmap(nullptr, 3 * PG, PROT_READ | PROT_WRITE, MAP_PRIVATE | MAP_ANONYMOUS, -1, 0);
+            uint8_t *m = (uint8_t *)mmap(nullptr, (NPAGES + 2) * PG, PROT_READ | PROT_WRITE, MAP_PRIVATE | MAP_ANONYMOUS, -1, 0);
             if (m == MAP_FAILED)
                 mc::harness_error("mmap failed");
             fill = f;
-            memset(m, f, 3 * PG);
+            memset(m, f, (NPAGES + 2) * PG);
             mprotect(m, PG, PROT_NONE);
-            mprotect(m + 2 * PG, PG, PROT_NONE);
+            mprotect(m + (NPAGES + 1) * PG, PG, PROT_NONE);
             lo = m + PG;
-            hi = m + 2 * PG;
+            hi = m + (NPAGES + 1) * PG;
         }
+        void wipe() { memset(lo, fill, hi - lo); }
         void reset()
         {
             memset(hi - W, fill, W);
